@@ -383,7 +383,7 @@ func decodeKey(seq ansi.Sequence) Key {
 					switch j {
 					case 0:
 						// Modifiers
-						key.Modifiers = ModifierMask(pm[0] - 1)
+						key.Modifiers |= ModifierMask(pm[0] - 1)
 						if key.Modifiers < 0 {
 							key.Modifiers = 0
 						}
